@@ -253,6 +253,18 @@ func (h *ShelleyBlockHeader) UnmarshalCBOR(cborData []byte) error {
 	return nil
 }
 
+// MarshalCBOR returns the original wire bytes of a decoded block header so that
+// re-serialising an unmodified object reproduces exactly the bytes its hash was
+// computed over (non-canonical encodings included); objects built in-process
+// are encoded from their fields.
+func (h *ShelleyBlockHeader) MarshalCBOR() ([]byte, error) {
+	if cborData := h.Cbor(); cborData != nil {
+		return cborData, nil
+	}
+	type tShelleyBlockHeader ShelleyBlockHeader
+	return cbor.Encode((*tShelleyBlockHeader)(h))
+}
+
 func (h *ShelleyBlockHeader) Hash() common.Blake2b256 {
 	if h.hash == nil {
 		tmpHash := common.Blake2b256Hash(h.Cbor())
